@@ -444,7 +444,9 @@ class Interp:
                 raise WildCondition()  # iterating a dict / slot reference is outside the modelled domain
             out = []
             parentloop = self.lookup(env, "forloop")
-            if not isinstance(parentloop, dict):
+            if parentloop is WILD or parentloop is WILD2:
+                parentloop = WILD2  # loop state the model does not predict stays unpredicted
+            elif not isinstance(parentloop, dict):
                 parentloop = {}
             for i, ch in enumerate(seq):
                 layer = Layer({n["v"]: ch, "forloop": {"counter": str(i + 1), "counter0": str(i), "first": i == 0, "last": i == len(seq) - 1, "parentloop": parentloop}}, "for")
@@ -489,7 +491,9 @@ class Interp:
                 if seq is WILD or seq is WILD2 or not isinstance(seq, str):
                     raise WildCondition()
                 parentloop = self.lookup(env, "forloop")
-                if not isinstance(parentloop, dict):
+                if parentloop is WILD or parentloop is WILD2:
+                    parentloop = WILD2
+                elif not isinstance(parentloop, dict):
                     parentloop = {}
                 for i, ch in enumerate(seq):
                     b = {n["v"]: ch, "forloop": {"counter": str(i + 1), "counter0": str(i), "first": i == 0, "last": i == len(seq) - 1, "parentloop": parentloop}}
